@@ -8,6 +8,9 @@ leaves with `grind` given the small classification functions below.
 -/
 import RtcModel.Lemmas.Spsc
 import RtcModel.SpscTrack
+set_option linter.unusedSimpArgs false
+set_option linter.unusedVariables false
+
 namespace RtcModel.SpscTrack
 open RtcModel.Spsc RtcModel.C20Word RtcModel.Generated
 
@@ -21,6 +24,17 @@ def popViewC : CPc → PoView
   | .pop _ _ p => some p
   | _ => none
 
+/-- the pusher role is played by the holder of `push_lock`, the popper role by the holder of `pop_lock` -/
+def puViewOf (plock : Option Nat) (pp : Nat → PPc) : PuView :=
+  match plock with
+  | some i => pushView i (pp i)
+  | none => none
+def poViewOf (poplock : Option Tid) (pp : Nat → PPc) (cp : CPc) : PoView :=
+  match poplock with
+  | some (.prod i) => popViewP (pp i)
+  | some .cons => popViewC cp
+  | some .stop => none
+  | none => none
 def St.puView (s : St) : PuView :=
   match s.plock with
   | some i => pushView i (s.pp i)
@@ -30,6 +44,28 @@ def St.poView (s : St) : PoView :=
   | some (.prod i) => popViewP (s.pp i)
   | some .cons => popViewC s.cp
   | _ => none
+theorem St.puView_eq (s : St) : s.puView = puViewOf s.plock s.pp := by
+  unfold St.puView puViewOf; rfl
+theorem St.poView_eq (s : St) : s.poView = poViewOf s.poplock s.pp s.cp := by
+  unfold St.poView poViewOf
+  cases h : s.poplock with
+  | none => rfl
+  | some t => cases t <;> rfl
+
+theorem puViewOf_upd_ne (pl : Option Nat) (pp : Nat → PPc) (i : Nat) (pc : PPc) (h : pl ≠ some i) :
+    puViewOf pl (upd pp i pc) = puViewOf pl pp := by
+  unfold puViewOf
+  split
+  · rename_i k; rw [upd_other]; intro e; exact h (by rw [e])
+  · rfl
+theorem poViewOf_upd_ne (pl : Option Tid) (pp : Nat → PPc) (cp : CPc) (i : Nat) (pc : PPc) (h : pl ≠ some (.prod i)) :
+    poViewOf pl (upd pp i pc) cp = poViewOf pl pp cp := by
+  unfold poViewOf
+  split
+  · rename_i k; rw [upd_other]; intro e; exact h (by rw [e])
+  · rfl
+  · rfl
+  · rfl
 
 def holdsPush : PPc → Bool
   | .chk .. | .push .. | .ntf .. | .tryLock .. | .pop .. => true
@@ -423,5 +459,408 @@ theorem LInv.init (cap W : Nat) : LInv (St.init Variant.cur cap W 0) := by
   refine ⟨rfl, ?_, ?_, ?_, ?_, ?_, ?_, ?_, ?_, ?_, ?_, ?_⟩
   all_goals (try intro j)
   all_goals grind [St.init, holdsPush, holdsPopP, holdsPopC, hasHandle, trackInitSenders_val]
+
+/-! ### the ring invariant through the lock holders -/
+
+structure TInv (s : St) : Prop where
+  l : LInv s
+  ring : RingInv s.ring s.puView s.poView
+
+theorem startPush' (r : Ring) (v : Val) (po : PoView) (h : RingInv r none po) : RingInv r (some (.ldTail, v)) po :=
+  h.startPush v rfl
+theorem startPop' (r : Ring) (pu : PuView) (h : RingInv r pu none) : RingInv r pu (some .ldHead) :=
+  h.startPop rfl
+
+/-- a thread that holds neither lock can change its program counter without changing the roles -/
+theorem views_upd_nolock (s : St) (hL : LInv s) (i : Nat) (pc : PPc) (pp' : Nat → PPc)
+    (hn1 : holdsPush (s.pp i) = false) (hn2 : holdsPopP (s.pp i) = false) :
+    puViewOf s.plock (upd pp' i pc) = puViewOf s.plock pp' ∧
+    poViewOf s.poplock (upd pp' i pc) s.cp = poViewOf s.poplock pp' s.cp := by
+  refine ⟨puViewOf_upd_ne _ _ _ _ ?_, poViewOf_upd_ne _ _ _ _ _ ?_⟩
+  · intro e; have := (hL.plockIff i).2 e; simp [hn1] at this
+  · intro e; have := (hL.poplockP i).2 e; simp [hn2] at this
+
+theorem stepP_ring_none (s : St) (i : Nat) (op : Option POp)  (hpc : s.pp i = .none )
+    (h : TInv s) (hw : NoWrap s.ring) : RingInv (stepP s i op).ring (stepP s i op).puView (stepP s i op).poView := by
+  obtain ⟨⟨hv, h1, h2, h3, h4, h5, h6, h7, h8, h9, h10, h11⟩, hring⟩ := h
+  have hp : s.v.plock = true := by rw [hv]; rfl
+  simp only [stepP, hpc, startP, St.endSample, St.beginSample, St.setP, hp, if_true, trackCloneInc_val, trackDropDec_val, trackCloseWhenPrev_val]
+  repeat' split
+  all_goals grind [St.puView, St.poView, pushView, popViewP, popViewC, upd, holdsPush, holdsPopP, holdsPopC, startPush', startPop']
+
+theorem stepP_ring_reserved (s : St) (i : Nat) (op : Option POp)  (hpc : s.pp i = .reserved )
+    (h : TInv s) (hw : NoWrap s.ring) : RingInv (stepP s i op).ring (stepP s i op).puView (stepP s i op).poView := by
+  obtain ⟨⟨hv, h1, h2, h3, h4, h5, h6, h7, h8, h9, h10, h11⟩, hring⟩ := h
+  have hp : s.v.plock = true := by rw [hv]; rfl
+  simp only [stepP, hpc, startP, St.endSample, St.beginSample, St.setP, hp, if_true, trackCloneInc_val, trackDropDec_val, trackCloseWhenPrev_val]
+  repeat' split
+  all_goals grind [St.puView, St.poView, pushView, popViewP, popViewC, upd, holdsPush, holdsPopP, holdsPopC, startPush', startPop']
+
+theorem stepP_ring_gone (s : St) (i : Nat) (op : Option POp)  (hpc : s.pp i = .gone )
+    (h : TInv s) (hw : NoWrap s.ring) : RingInv (stepP s i op).ring (stepP s i op).puView (stepP s i op).poView := by
+  obtain ⟨⟨hv, h1, h2, h3, h4, h5, h6, h7, h8, h9, h10, h11⟩, hring⟩ := h
+  have hp : s.v.plock = true := by rw [hv]; rfl
+  simp only [stepP, hpc, startP, St.endSample, St.beginSample, St.setP, hp, if_true, trackCloneInc_val, trackDropDec_val, trackCloseWhenPrev_val]
+  repeat' split
+  all_goals grind [St.puView, St.poView, pushView, popViewP, popViewC, upd, holdsPush, holdsPopP, holdsPopC, startPush', startPop']
+
+theorem stepP_ring_idle (s : St) (i : Nat) (op : Option POp)  (hpc : s.pp i = .idle )
+    (h : TInv s) (hw : NoWrap s.ring) : RingInv (stepP s i op).ring (stepP s i op).puView (stepP s i op).poView := by
+  have hL := h.l
+  have hring := h.ring
+  have hp : s.v.plock = true := by rw [hL.var]; rfl
+  have hn1 : holdsPush (s.pp i) = false := by simp [hpc, holdsPush]
+  have hn2 : holdsPopP (s.pp i) = false := by simp [hpc, holdsPopP]
+  simp only [stepP, hpc]
+  cases op with
+  | none => exact hring
+  | some o =>
+    cases o with
+    | send vs =>
+      cases vs with
+      | nil => exact hring
+      | cons v rest =>
+        have := views_upd_nolock s hL i (.acq .send v rest) s.pp hn1 hn2
+        simp only [startP, St.beginSample, hp, if_true, St.setP, St.puView_eq, St.poView_eq] at hring ⊢
+        rw [this.1, this.2]; exact hring
+    | trySend v =>
+      have := views_upd_nolock s hL i (.acq .try_ v []) s.pp hn1 hn2
+      simp only [startP, St.beginSample, hp, if_true, St.setP, St.puView_eq, St.poView_eq] at hring ⊢
+      rw [this.1, this.2]; exact hring
+    | cloneTo j =>
+      simp only [startP]
+      split
+      · rename_i hj
+        have a := views_upd_nolock s hL i (.clone j) (upd s.pp j .reserved) hn1 hn2
+        have b := views_upd_nolock s hL j .reserved s.pp (by simp [hj.2, holdsPush]) (by simp [hj.2, holdsPopP])
+        simp only [St.puView_eq, St.poView_eq] at hring ⊢
+        rw [a.1, a.2, b.1, b.2]; exact hring
+      · exact hring
+    | dropSrc =>
+      have := views_upd_nolock s hL i .fetchSub s.pp hn1 hn2
+      simp only [startP, St.setP, St.puView_eq, St.poView_eq] at hring ⊢
+      rw [this.1, this.2]; exact hring
+
+theorem stepP_ring_acq (s : St) (i : Nat) (op : Option POp) (k v rest) (hpc : s.pp i = .acq k v rest)
+    (h : TInv s) (hw : NoWrap s.ring) : RingInv (stepP s i op).ring (stepP s i op).puView (stepP s i op).poView := by
+  obtain ⟨⟨hv, h1, h2, h3, h4, h5, h6, h7, h8, h9, h10, h11⟩, hring⟩ := h
+  have hp : s.v.plock = true := by rw [hv]; rfl
+  simp only [stepP, hpc, startP, St.endSample, St.beginSample, St.setP, hp, if_true, trackCloneInc_val, trackDropDec_val, trackCloseWhenPrev_val]
+  repeat' split
+  all_goals grind [St.puView, St.poView, pushView, popViewP, popViewC, upd, holdsPush, holdsPopP, holdsPopC, startPush', startPop']
+
+theorem stepP_ring_chk (s : St) (i : Nat) (op : Option POp) (k v rest) (hpc : s.pp i = .chk k v rest)
+    (h : TInv s) (hw : NoWrap s.ring) : RingInv (stepP s i op).ring (stepP s i op).puView (stepP s i op).poView := by
+  obtain ⟨⟨hv, h1, h2, h3, h4, h5, h6, h7, h8, h9, h10, h11⟩, hring⟩ := h
+  have hp : s.v.plock = true := by rw [hv]; rfl
+  simp only [stepP, hpc, startP, St.endSample, St.beginSample, St.setP, hp, if_true, trackCloneInc_val, trackDropDec_val, trackCloseWhenPrev_val]
+  repeat' split
+  all_goals grind [St.puView, St.poView, pushView, popViewP, popViewC, upd, holdsPush, holdsPopP, holdsPopC, startPush', startPop']
+
+theorem stepP_ring_push (s : St) (i : Nat) (op : Option POp) (c v rest p) (hpc : s.pp i = .push c v rest p)
+    (h : TInv s) (hw : NoWrap s.ring) : RingInv (stepP s i op).ring (stepP s i op).puView (stepP s i op).poView := by
+  obtain ⟨⟨hv, h1, h2, h3, h4, h5, h6, h7, h8, h9, h10, h11⟩, hring⟩ := h
+  have hp : s.v.plock = true := by rw [hv]; rfl
+  have hpl : s.plock = some i := (h1 i).1 (by simp [hpc, holdsPush])
+  have hview : s.puView = some (p, (i, v)) := by simp [St.puView, hpl, hpc, pushView]
+  rw [hview] at hring
+  obtain ⟨k1, k2, k3⟩ := pushStep_inv hring hw
+  simp only [stepP, hpc, startP, St.endSample, St.beginSample, St.setP, hp, if_true, trackCloneInc_val, trackDropDec_val, trackCloseWhenPrev_val]
+  repeat' split
+  all_goals grind [St.puView, St.poView, pushView, popViewP, popViewC, upd, holdsPush, holdsPopP, holdsPopC, startPush', startPop']
+
+theorem stepP_ring_ntf (s : St) (i : Nat) (op : Option POp) (c rest) (hpc : s.pp i = .ntf c rest)
+    (h : TInv s) (hw : NoWrap s.ring) : RingInv (stepP s i op).ring (stepP s i op).puView (stepP s i op).poView := by
+  obtain ⟨⟨hv, h1, h2, h3, h4, h5, h6, h7, h8, h9, h10, h11⟩, hring⟩ := h
+  have hp : s.v.plock = true := by rw [hv]; rfl
+  simp only [stepP, hpc, startP, St.endSample, St.beginSample, St.setP, hp, if_true, trackCloneInc_val, trackDropDec_val, trackCloseWhenPrev_val]
+  repeat' split
+  all_goals grind [St.puView, St.poView, pushView, popViewP, popViewC, upd, holdsPush, holdsPopP, holdsPopC, startPush', startPop']
+
+theorem stepP_ring_tryLock (s : St) (i : Nat) (op : Option POp) (v rest) (hpc : s.pp i = .tryLock v rest)
+    (h : TInv s) (hw : NoWrap s.ring) : RingInv (stepP s i op).ring (stepP s i op).puView (stepP s i op).poView := by
+  obtain ⟨⟨hv, h1, h2, h3, h4, h5, h6, h7, h8, h9, h10, h11⟩, hring⟩ := h
+  have hp : s.v.plock = true := by rw [hv]; rfl
+  simp only [stepP, hpc, startP, St.endSample, St.beginSample, St.setP, hp, if_true, trackCloneInc_val, trackDropDec_val, trackCloseWhenPrev_val]
+  repeat' split
+  all_goals grind [St.puView, St.poView, pushView, popViewP, popViewC, upd, holdsPush, holdsPopP, holdsPopC, startPush', startPop']
+
+theorem stepP_ring_pop (s : St) (i : Nat) (op : Option POp) (v rest p) (hpc : s.pp i = .pop v rest p)
+    (h : TInv s) (hw : NoWrap s.ring) : RingInv (stepP s i op).ring (stepP s i op).puView (stepP s i op).poView := by
+  obtain ⟨⟨hv, h1, h2, h3, h4, h5, h6, h7, h8, h9, h10, h11⟩, hring⟩ := h
+  have hp : s.v.plock = true := by rw [hv]; rfl
+  have hpl : s.plock = some i := (h1 i).1 (by simp [hpc, holdsPush])
+  have hpo : s.poplock = some (.prod i) := (h2 i).1 (by simp [hpc, holdsPopP])
+  have hview : s.poView = some p := by simp [St.poView, hpo, hpc, popViewP]
+  have hview2 : s.puView = none := by simp [St.puView, hpl, hpc, pushView]
+  rw [hview, hview2] at hring
+  obtain ⟨k1, k2, k3⟩ := popStep_inv hring hw
+  simp only [stepP, hpc, startP, St.endSample, St.beginSample, St.setP, hp, if_true, trackCloneInc_val, trackDropDec_val, trackCloseWhenPrev_val]
+  repeat' split
+  all_goals grind [St.puView, St.poView, pushView, popViewP, popViewC, upd, holdsPush, holdsPopP, holdsPopC, startPush', startPop']
+
+theorem stepP_ring_clone (s : St) (i : Nat) (op : Option POp) (j') (hpc : s.pp i = .clone j')
+    (h : TInv s) (hw : NoWrap s.ring) : RingInv (stepP s i op).ring (stepP s i op).puView (stepP s i op).poView := by
+  have hL := h.l
+  have hring := h.ring
+  have hn1 : holdsPush (s.pp i) = false := by simp [hpc, holdsPush]
+  have hn2 : holdsPopP (s.pp i) = false := by simp [hpc, holdsPopP]
+  have hres := hL.cloneRes i j' hpc
+  have a := views_upd_nolock s hL i .idle (upd s.pp j' .idle) hn1 hn2
+  have b := views_upd_nolock s hL j' .idle s.pp (by simp [hres, holdsPush]) (by simp [hres, holdsPopP])
+  simp only [stepP, hpc, St.puView_eq, St.poView_eq] at hring ⊢
+  rw [a.1, a.2, b.1, b.2]; exact hring
+
+theorem stepP_ring_fetchSub (s : St) (i : Nat) (op : Option POp)  (hpc : s.pp i = .fetchSub )
+    (h : TInv s) (hw : NoWrap s.ring) : RingInv (stepP s i op).ring (stepP s i op).puView (stepP s i op).poView := by
+  have hL := h.l
+  have hring := h.ring
+  have hn1 : holdsPush (s.pp i) = false := by simp [hpc, holdsPush]
+  have hn2 : holdsPopP (s.pp i) = false := by simp [hpc, holdsPopP]
+  have a := views_upd_nolock s hL i .stClosed s.pp hn1 hn2
+  have b := views_upd_nolock s hL i .gone s.pp hn1 hn2
+  simp only [stepP, hpc, St.setP]
+  split <;> (simp only [St.puView_eq, St.poView_eq] at hring ⊢)
+  · rw [a.1, a.2]; exact hring
+  · rw [b.1, b.2]; exact hring
+
+theorem stepP_ring_stClosed (s : St) (i : Nat) (op : Option POp)  (hpc : s.pp i = .stClosed )
+    (h : TInv s) (hw : NoWrap s.ring) : RingInv (stepP s i op).ring (stepP s i op).puView (stepP s i op).poView := by
+  obtain ⟨⟨hv, h1, h2, h3, h4, h5, h6, h7, h8, h9, h10, h11⟩, hring⟩ := h
+  have hp : s.v.plock = true := by rw [hv]; rfl
+  simp only [stepP, hpc, startP, St.endSample, St.beginSample, St.setP, hp, if_true, trackCloneInc_val, trackDropDec_val, trackCloseWhenPrev_val]
+  repeat' split
+  all_goals grind [St.puView, St.poView, pushView, popViewP, popViewC, upd, holdsPush, holdsPopP, holdsPopC, startPush', startPop']
+
+theorem stepP_ring_ntfW (s : St) (i : Nat) (op : Option POp)  (hpc : s.pp i = .ntfW )
+    (h : TInv s) (hw : NoWrap s.ring) : RingInv (stepP s i op).ring (stepP s i op).puView (stepP s i op).poView := by
+  obtain ⟨⟨hv, h1, h2, h3, h4, h5, h6, h7, h8, h9, h10, h11⟩, hring⟩ := h
+  have hp : s.v.plock = true := by rw [hv]; rfl
+  simp only [stepP, hpc, startP, St.endSample, St.beginSample, St.setP, hp, if_true, trackCloneInc_val, trackDropDec_val, trackCloseWhenPrev_val]
+  repeat' split
+  all_goals grind [St.puView, St.poView, pushView, popViewP, popViewC, upd, holdsPush, holdsPopP, holdsPopC, startPush', startPop']
+
+theorem stepC_ring_idle (s : St) (start : Bool)  (hpc : s.cp = .idle )
+    (h : TInv s) (hw : NoWrap s.ring) : RingInv (stepC s start).ring (stepC s start).puView (stepC s start).poView := by
+  obtain ⟨⟨hv, h1, h2, h3, h4, h5, h6, h7, h8, h9, h10, h11⟩, hring⟩ := h
+  have hr : s.v.rfix = true := by rw [hv]; rfl
+  simp only [stepC, hpc, St.loopTop, St.retC, hr, if_true]
+  repeat' split
+  all_goals grind [St.puView, St.poView, pushView, popViewP, popViewC, upd, holdsPush, holdsPopP, holdsPopC, startPush', startPop']
+
+theorem stepC_ring_mkNtf (s : St) (start : Bool)  (hpc : s.cp = .mkNtf )
+    (h : TInv s) (hw : NoWrap s.ring) : RingInv (stepC s start).ring (stepC s start).puView (stepC s start).poView := by
+  obtain ⟨⟨hv, h1, h2, h3, h4, h5, h6, h7, h8, h9, h10, h11⟩, hring⟩ := h
+  have hr : s.v.rfix = true := by rw [hv]; rfl
+  simp only [stepC, hpc, St.loopTop, St.retC, hr, if_true]
+  repeat' split
+  all_goals grind [St.puView, St.poView, pushView, popViewP, popViewC, upd, holdsPush, holdsPopP, holdsPopC, startPush', startPop']
+
+theorem stepC_ring_ldEnded (s : St) (start : Bool) (g) (hpc : s.cp = .ldEnded g)
+    (h : TInv s) (hw : NoWrap s.ring) : RingInv (stepC s start).ring (stepC s start).puView (stepC s start).poView := by
+  obtain ⟨⟨hv, h1, h2, h3, h4, h5, h6, h7, h8, h9, h10, h11⟩, hring⟩ := h
+  have hr : s.v.rfix = true := by rw [hv]; rfl
+  simp only [stepC, hpc, St.loopTop, St.retC, hr, if_true]
+  repeat' split
+  all_goals grind [St.puView, St.poView, pushView, popViewP, popViewC, upd, holdsPush, holdsPopP, holdsPopC, startPush', startPop']
+
+theorem stepC_ring_lock (s : St) (start : Bool) (g) (hpc : s.cp = .lock g)
+    (h : TInv s) (hw : NoWrap s.ring) : RingInv (stepC s start).ring (stepC s start).puView (stepC s start).poView := by
+  obtain ⟨⟨hv, h1, h2, h3, h4, h5, h6, h7, h8, h9, h10, h11⟩, hring⟩ := h
+  have hr : s.v.rfix = true := by rw [hv]; rfl
+  simp only [stepC, hpc, St.loopTop, St.retC, hr, if_true]
+  repeat' split
+  all_goals grind [St.puView, St.poView, pushView, popViewP, popViewC, upd, holdsPush, holdsPopP, holdsPopC, startPush', startPop']
+
+theorem stepC_ring_ldClosed1 (s : St) (start : Bool) (g) (hpc : s.cp = .ldClosed1 g)
+    (h : TInv s) (hw : NoWrap s.ring) : RingInv (stepC s start).ring (stepC s start).puView (stepC s start).poView := by
+  obtain ⟨⟨hv, h1, h2, h3, h4, h5, h6, h7, h8, h9, h10, h11⟩, hring⟩ := h
+  have hr : s.v.rfix = true := by rw [hv]; rfl
+  simp only [stepC, hpc, St.loopTop, St.retC, hr, if_true]
+  repeat' split
+  all_goals grind [St.puView, St.poView, pushView, popViewP, popViewC, upd, holdsPush, holdsPopP, holdsPopC, startPush', startPop']
+
+theorem stepC_ring_pop (s : St) (start : Bool) (g cl p) (hpc : s.cp = .pop g cl p)
+    (h : TInv s) (hw : NoWrap s.ring) : RingInv (stepC s start).ring (stepC s start).puView (stepC s start).poView := by
+  obtain ⟨⟨hv, h1, h2, h3, h4, h5, h6, h7, h8, h9, h10, h11⟩, hring⟩ := h
+  have hr : s.v.rfix = true := by rw [hv]; rfl
+  have hpo : s.poplock = some .cons := h3.1 (by simp [hpc, holdsPopC])
+  have hview : s.poView = some p := by simp [St.poView, hpo, hpc, popViewC]
+  rw [hview] at hring
+  obtain ⟨k1, k2, k3⟩ := popStep_inv hring hw
+  simp only [stepC, hpc, St.loopTop, St.retC, hr, if_true]
+  repeat' split
+  all_goals grind [St.puView, St.poView, pushView, popViewP, popViewC, upd, holdsPush, holdsPopP, holdsPopC, startPush', startPop']
+
+theorem stepC_ring_ldClosedOld (s : St) (start : Bool)  (hpc : s.cp = .ldClosedOld )
+    (h : TInv s) (hw : NoWrap s.ring) : RingInv (stepC s start).ring (stepC s start).puView (stepC s start).poView := by
+  obtain ⟨⟨hv, h1, h2, h3, h4, h5, h6, h7, h8, h9, h10, h11⟩, hring⟩ := h
+  have hr : s.v.rfix = true := by rw [hv]; rfl
+  simp only [stepC, hpc, St.loopTop, St.retC, hr, if_true]
+  repeat' split
+  all_goals grind [St.puView, St.poView, pushView, popViewP, popViewC, upd, holdsPush, holdsPopP, holdsPopC, startPush', startPop']
+
+theorem stepC_ring_stEnded (s : St) (start : Bool)  (hpc : s.cp = .stEnded )
+    (h : TInv s) (hw : NoWrap s.ring) : RingInv (stepC s start).ring (stepC s start).puView (stepC s start).poView := by
+  obtain ⟨⟨hv, h1, h2, h3, h4, h5, h6, h7, h8, h9, h10, h11⟩, hring⟩ := h
+  have hr : s.v.rfix = true := by rw [hv]; rfl
+  simp only [stepC, hpc, St.loopTop, St.retC, hr, if_true]
+  repeat' split
+  all_goals grind [St.puView, St.poView, pushView, popViewP, popViewC, upd, holdsPush, holdsPopP, holdsPopC, startPush', startPop']
+
+theorem stepC_ring_await1 (s : St) (start : Bool) (g) (hpc : s.cp = .await1 g)
+    (h : TInv s) (hw : NoWrap s.ring) : RingInv (stepC s start).ring (stepC s start).puView (stepC s start).poView := by
+  obtain ⟨⟨hv, h1, h2, h3, h4, h5, h6, h7, h8, h9, h10, h11⟩, hring⟩ := h
+  have hr : s.v.rfix = true := by rw [hv]; rfl
+  simp only [stepC, hpc, St.loopTop, St.retC, hr, if_true]
+  repeat' split
+  all_goals grind [St.puView, St.poView, pushView, popViewP, popViewC, upd, holdsPush, holdsPopP, holdsPopC, startPush', startPop']
+
+theorem stepC_ring_await2 (s : St) (start : Bool)  (hpc : s.cp = .await2 )
+    (h : TInv s) (hw : NoWrap s.ring) : RingInv (stepC s start).ring (stepC s start).puView (stepC s start).poView := by
+  obtain ⟨⟨hv, h1, h2, h3, h4, h5, h6, h7, h8, h9, h10, h11⟩, hring⟩ := h
+  have hr : s.v.rfix = true := by rw [hv]; rfl
+  simp only [stepC, hpc, St.loopTop, St.retC, hr, if_true]
+  repeat' split
+  all_goals grind [St.puView, St.poView, pushView, popViewP, popViewC, upd, holdsPush, holdsPopP, holdsPopC, startPush', startPop']
+
+theorem stepC_ring_ldClosed2 (s : St) (start : Bool)  (hpc : s.cp = .ldClosed2 )
+    (h : TInv s) (hw : NoWrap s.ring) : RingInv (stepC s start).ring (stepC s start).puView (stepC s start).poView := by
+  obtain ⟨⟨hv, h1, h2, h3, h4, h5, h6, h7, h8, h9, h10, h11⟩, hring⟩ := h
+  have hr : s.v.rfix = true := by rw [hv]; rfl
+  simp only [stepC, hpc, St.loopTop, St.retC, hr, if_true]
+  repeat' split
+  all_goals grind [St.puView, St.poView, pushView, popViewP, popViewC, upd, holdsPush, holdsPopP, holdsPopC, startPush', startPop']
+
+theorem stepC_ring_isEmpty (s : St) (start : Bool)  (hpc : s.cp = .isEmpty )
+    (h : TInv s) (hw : NoWrap s.ring) : RingInv (stepC s start).ring (stepC s start).puView (stepC s start).poView := by
+  obtain ⟨⟨hv, h1, h2, h3, h4, h5, h6, h7, h8, h9, h10, h11⟩, hring⟩ := h
+  have hr : s.v.rfix = true := by rw [hv]; rfl
+  simp only [stepC, hpc, St.loopTop, St.retC, hr, if_true]
+  repeat' split
+  all_goals grind [St.puView, St.poView, pushView, popViewP, popViewC, upd, holdsPush, holdsPopP, holdsPopC, startPush', startPop']
+
+theorem stepC_ring_stEnded2 (s : St) (start : Bool)  (hpc : s.cp = .stEnded2 )
+    (h : TInv s) (hw : NoWrap s.ring) : RingInv (stepC s start).ring (stepC s start).puView (stepC s start).poView := by
+  obtain ⟨⟨hv, h1, h2, h3, h4, h5, h6, h7, h8, h9, h10, h11⟩, hring⟩ := h
+  have hr : s.v.rfix = true := by rw [hv]; rfl
+  simp only [stepC, hpc, St.loopTop, St.retC, hr, if_true]
+  repeat' split
+  all_goals grind [St.puView, St.poView, pushView, popViewP, popViewC, upd, holdsPush, holdsPopP, holdsPopC, startPush', startPop']
+
+theorem stepS_ring (s : St) (start : Bool) (h : TInv s) :
+    RingInv (stepS s start).ring (stepS s start).puView (stepS s start).poView := by
+  have hring := h.ring
+  simp only [stepS]
+  repeat' split
+  all_goals exact hring
+
+theorem stepP_ring (s : St) (i : Nat) (op : Option POp) (h : TInv s) (hw : NoWrap s.ring) : RingInv (stepP s i op).ring (stepP s i op).puView (stepP s i op).poView := by
+  cases hpc : s.pp i with
+  | none  => exact stepP_ring_none s i op  hpc h hw
+  | reserved  => exact stepP_ring_reserved s i op  hpc h hw
+  | gone  => exact stepP_ring_gone s i op  hpc h hw
+  | idle  => exact stepP_ring_idle s i op  hpc h hw
+  | acq k v rest => exact stepP_ring_acq s i op k v rest hpc h hw
+  | chk k v rest => exact stepP_ring_chk s i op k v rest hpc h hw
+  | push c v rest p => exact stepP_ring_push s i op c v rest p hpc h hw
+  | ntf c rest => exact stepP_ring_ntf s i op c rest hpc h hw
+  | tryLock v rest => exact stepP_ring_tryLock s i op v rest hpc h hw
+  | pop v rest p => exact stepP_ring_pop s i op v rest p hpc h hw
+  | clone j' => exact stepP_ring_clone s i op j' hpc h hw
+  | fetchSub  => exact stepP_ring_fetchSub s i op  hpc h hw
+  | stClosed  => exact stepP_ring_stClosed s i op  hpc h hw
+  | ntfW  => exact stepP_ring_ntfW s i op  hpc h hw
+
+theorem stepC_ring (s : St) (start : Bool) (h : TInv s) (hw : NoWrap s.ring) : RingInv (stepC s start).ring (stepC s start).puView (stepC s start).poView := by
+  cases hpc : s.cp with
+  | idle  => exact stepC_ring_idle s start  hpc h hw
+  | mkNtf  => exact stepC_ring_mkNtf s start  hpc h hw
+  | ldEnded g => exact stepC_ring_ldEnded s start g hpc h hw
+  | lock g => exact stepC_ring_lock s start g hpc h hw
+  | ldClosed1 g => exact stepC_ring_ldClosed1 s start g hpc h hw
+  | pop g cl p => exact stepC_ring_pop s start g cl p hpc h hw
+  | ldClosedOld  => exact stepC_ring_ldClosedOld s start  hpc h hw
+  | stEnded  => exact stepC_ring_stEnded s start  hpc h hw
+  | await1 g => exact stepC_ring_await1 s start g hpc h hw
+  | await2  => exact stepC_ring_await2 s start  hpc h hw
+  | ldClosed2  => exact stepC_ring_ldClosed2 s start  hpc h hw
+  | isEmpty  => exact stepC_ring_isEmpty s start  hpc h hw
+  | stEnded2  => exact stepC_ring_stEnded2 s start  hpc h hw
+
+theorem step_TInv (s : St) (l : Label) (h : TInv s) (hw : NoWrap s.ring) : TInv (step s l) := by
+  refine ⟨step_LInv s l h.l, ?_⟩
+  cases l with
+  | prod i op => exact stepP_ring s i op h hw
+  | cons st => exact stepC_ring s st h hw
+  | stop st => exact stepS_ring s st h
+
+theorem TInv.init (cap W : Nat) (h0 : 0 < cap) (h1 : cap < W) : TInv (St.init Variant.cur cap W 0) :=
+  ⟨LInv.init cap W, RingInv.init cap W h0 h1⟩
+
+/-! ### frame: capacity / word never change, `tcount` never decreases; runs -/
+
+theorem step_frame (s : St) (l : Label) :
+    (step s l).ring.cap = s.ring.cap ∧ (step s l).ring.W = s.ring.W ∧ s.ring.tcount ≤ (step s l).ring.tcount ∧
+    (step s l).v = s.v := by
+  cases l with
+  | prod i op =>
+    cases hpc : s.pp i with
+    | push c v rest p =>
+      have := pushStep_frame s.ring (i, v) p
+      simp only [step, stepP, hpc, St.endSample, St.beginSample, St.setP]
+      repeat' split
+      all_goals grind
+    | pop v rest p =>
+      have := popStep_frame s.ring p
+      simp only [step, stepP, hpc, St.setP]
+      repeat' split
+      all_goals grind
+    | _ =>
+      simp only [step, stepP, hpc, startP, St.endSample, St.beginSample, St.setP]
+      repeat' split
+      all_goals simp
+  | cons st =>
+    cases hpc : s.cp with
+    | pop g cl p =>
+      have := popStep_frame s.ring p
+      simp only [step, stepC, hpc, St.loopTop, St.retC]
+      repeat' split
+      all_goals grind
+    | _ =>
+      simp only [step, stepC, hpc, St.loopTop, St.retC]
+      repeat' split
+      all_goals simp
+  | stop st =>
+    simp only [step, stepS]
+    repeat' split
+    all_goals simp
+
+theorem run_frame (s : St) (ls : List Label) :
+    (run s ls).ring.cap = s.ring.cap ∧ (run s ls).ring.W = s.ring.W ∧ s.ring.tcount ≤ (run s ls).ring.tcount := by
+  induction ls generalizing s with
+  | nil => simp [run]
+  | cons l ls ih =>
+    have h1 := step_frame s l
+    have h2 := ih (step s l)
+    simp only [run, List.foldl_cons] at h2 ⊢
+    exact ⟨h2.1.trans h1.1, h2.2.1.trans h1.2.1, Nat.le_trans h1.2.2.1 h2.2.2⟩
+
+/-- generic induction principle: an invariant preserved by every step under `NoWrap` holds after
+every run whose final state satisfies `NoWrap` -/
+theorem run_induct (P : St → Prop) (hstep : ∀ s l, P s → NoWrap s.ring → P (step s l))
+    (s : St) (ls : List Label) (h : P s) (hw : NoWrap (run s ls).ring) : P (run s ls) := by
+  induction ls generalizing s with
+  | nil => exact h
+  | cons l ls ih =>
+    simp only [run, List.foldl_cons] at hw ⊢
+    have hf := run_frame (step s l) ls
+    have hf1 := step_frame s l
+    have hw1 : NoWrap (step s l).ring := NoWrap.of_le hf.1 hf.2.1 hf.2.2 hw
+    have hw0 : NoWrap s.ring := NoWrap.of_le hf1.1 hf1.2.1 hf1.2.2.1 hw1
+    exact ih (step s l) (hstep s l h hw0) hw
+
+theorem run_TInv (s : St) (ls : List Label) (h : TInv s) (hw : NoWrap (run s ls).ring) : TInv (run s ls) :=
+  run_induct TInv step_TInv s ls h hw
 
 end RtcModel.SpscTrack
